@@ -56,15 +56,15 @@ func eqInts(a, b []int) bool {
 }
 
 // guarded runs f; an unexpected panic becomes a violation message that names
-// the operation (ctx) in its first line.
-func guarded(ctx func() string, f func() string) (msg string) {
+// the operation (through the interpreter's errf) in its first line.
+func guarded(errf func(string, ...any) string, f func() string) (msg string) {
 	defer func() {
 		if p := recover(); p != nil {
 			lines := strings.Split(string(debug.Stack()), "\n")
 			if len(lines) > 24 {
 				lines = lines[:24]
 			}
-			msg = fmt.Sprintf("%s: unexpected panic: %v\n%s", ctx(), p, strings.Join(lines, "\n"))
+			msg = errf("unexpected panic: %v", p) + "\n" + strings.Join(lines, "\n")
 		}
 	}()
 	return f()
@@ -283,7 +283,7 @@ func runStack(c SeqCase, o *vk.Obs) string {
 	default:
 		return r.errf("VK-INFRA unknown constructor %q", c.Ctor)
 	}
-	ctx := func() string { return r.errf("") }
+	ctx := r.errf
 	if msg := guarded(ctx, r.check); msg != "" {
 		return msg
 	}
